@@ -95,12 +95,21 @@ impl Parser {
                 return self.parse_impl(cursor, payload);
             }
 
+            // did this attempt begin at the first byte of a candidate frame?
+            let at_frame_start = matches!(self.state, ParseState::FindSync1);
+
             let res = cursor.transaction(|cur| self.parse_impl(cur, payload));
 
             match res {
                 Ok(x) => return Ok(x),
                 Err(_) => {
-                    let _ = cursor.read_u8(); // advance one byte
+                    // If the attempt resumed a frame whose first byte(s) were consumed by a
+                    // previous call, the rolled-back cursor is already past the byte that
+                    // has to be skipped. Skipping another one could discard the START of
+                    // a valid frame that begins in this read.
+                    if at_frame_start {
+                        let _ = cursor.read_u8(); // advance one byte
+                    }
                     self.reset();
                     // goto next iteration
                 }
